@@ -161,6 +161,16 @@ fn typed(run: &mut Run, cv: &str, cp: u32, in_domain: bool) {
             if in_domain && back != cp {
                 run.oracle_fail(&format!("typed_rt/{}", cv), &inp, &format!("U+{:04X} -> code {} -> U+{:04X}", cp, code, back));
             }
+            // "converts to the emulation's code": where the emulation displays the character's own ASCII code as that
+            // character, that code is what the key sends (several Viewdata / Mode 7 codes display as a blank, and only
+            // 0x20 is the space key)
+            if in_domain && to_uni(c.as_ref(), cp) == Some(cp) && code != cp {
+                run.oracle_fail(
+                    &format!("typed_code/{}", cv),
+                    &inp,
+                    &format!("U+{:04X} is sent as code {} but the emulation's code for it is {}", cp, code, cp),
+                );
+            }
         }
         Ok(_) => {}
         Err(loc) => {
